@@ -25,6 +25,8 @@ pub struct Case {
     pub first_index: u32,
     /// adversarial peer: which endpoint rewrites which of its packets into which catalogue item
     pub adv: Option<Adv>,
+    /// deviations are only placed at datagram indices <= this (u32::MAX = everywhere)
+    pub last_index: u32,
 }
 
 #[derive(Clone, Debug)]
@@ -152,7 +154,7 @@ pub fn family(name: &str, tier: Tier) -> Vec<Case> {
             // covering set: every value of every dimension at least once with null TLS
             let mut add = |s: Scenario, k: usize| {
                 let menu = if s.tls == Tls::Null { menu_null() } else { menu_tls() };
-                out.push(Case { scn: s, menu, k, extra: vec![], expect: Expect::Complete, injects: vec![], differential: false, first_index: 0, adv: None });
+                out.push(Case { scn: s, menu, k, extra: vec![], expect: Expect::Complete, injects: vec![], differential: false, first_index: 0, adv: None, last_index: u32::MAX });
             };
             let mut s = Scenario::base("data/echo-10000-whole");
             s.tasks = vec![echo_task(10_000, 0)];
@@ -198,6 +200,16 @@ pub fn family(name: &str, tier: Tier) -> Vec<Case> {
             s.tls = Tls::S2n;
             s.tasks = vec![echo_task(10_000, 1000)];
             add(s, 1);
+            // Retry before the handshake (RFC 9000 8.1.2), then a small and a medium transfer
+            let mut s = Scenario::base("data/null-retry-echo-10000");
+            s.retry = Retry::Det;
+            s.tasks = vec![echo_task(10_000, 0)];
+            add(s, 1);
+            let mut s = Scenario::base("data/tls-retry-echo-1+4097");
+            s.tls = Tls::S2n;
+            s.retry = Retry::Det;
+            s.tasks = vec![echo_task(1, 0), echo_task(4097, 1000)];
+            add(s, if quick { 0 } else { 1 });
             // segmentation boundaries: every stream length around one and two full packets (the last
             // frame of a stream is trimmed / padded / split differently for each), loss-free and with the
             // last flights dropped once
@@ -232,7 +244,7 @@ pub fn family(name: &str, tier: Tier) -> Vec<Case> {
             // L1: blocking of every kind, finite faults, must complete
             let mut add = |s: Scenario, k: usize| {
                 let menu = if s.tls == Tls::Null { menu_null() } else { menu_tls() };
-                out.push(Case { scn: s, menu, k, extra: bh(&[0, 1, 2]), expect: Expect::Complete, injects: vec![], differential: false, first_index: 0, adv: None });
+                out.push(Case { scn: s, menu, k, extra: bh(&[0, 1, 2]), expect: Expect::Complete, injects: vec![], differential: false, first_index: 0, adv: None, last_index: u32::MAX });
             };
             let mut s = Scenario::base("live/stream-credit");
             s.server.stream_window = Some(1000);
@@ -276,17 +288,59 @@ pub fn family(name: &str, tier: Tier) -> Vec<Case> {
             s.tls = Tls::S2n;
             s.tasks = vec![echo_task(3000, 0)];
             add(s, 1);
+            // the server's first flight exceeds 3 x the client's first datagram: it stops at the
+            // anti-amplification limit and only the client's own probes (RFC 9002 6.2.2.1) release it
+            for (name, cert) in [("live/tls-amplification-cert-medium", Cert::Medium), ("live/tls-amplification-cert-large", Cert::Large)] {
+                let mut s = Scenario::base(name);
+                s.tls = Tls::S2n;
+                s.cert = cert;
+                s.expect_amp_block = true;
+                s.tasks = vec![echo_task(3000, 0)];
+                add(s, 1);
+            }
+            let mut s = Scenario::base("live/null-retry");
+            s.retry = Retry::Det;
+            s.tasks = vec![echo_task(3000, 0)];
+            add(s, 1);
+            let mut s = Scenario::base("live/tls-retry-cert-medium");
+            s.tls = Tls::S2n;
+            s.cert = Cert::Medium;
+            s.retry = Retry::Det;
+            s.expect_amp_block = true;
+            s.tasks = vec![echo_task(3000, 0)];
+            add(s, if quick { 0 } else { 1 });
             // L2: the network never recovers: blackhole from every datagram index on
-            for (name, idle, tls) in [("live/blackhole-idle-3s", 3000u64, Tls::Null), ("live/blackhole-idle-100ms", 100, Tls::Null), ("live/blackhole-tls-idle-3s", 3000, Tls::S2n)] {
+            for (name, idle, tls, cert, retry) in [
+                ("live/blackhole-idle-3s", 3000u64, Tls::Null, Cert::Stock, Retry::Off),
+                ("live/blackhole-idle-100ms", 100, Tls::Null, Cert::Stock, Retry::Off),
+                ("live/blackhole-tls-idle-3s", 3000, Tls::S2n, Cert::Stock, Retry::Off),
+                ("live/blackhole-tls-cert-large-idle-3s", 3000, Tls::S2n, Cert::Large, Retry::Off),
+                ("live/blackhole-null-retry-idle-3s", 3000, Tls::Null, Cert::Stock, Retry::Det),
+            ] {
                 let mut s = Scenario::base(name);
                 s.tls = tls;
+                s.cert = cert;
+                s.retry = retry;
                 s.client.idle_ms = Some(idle);
                 s.server.idle_ms = Some(idle);
                 s.client.handshake_ms = Some(5000);
                 s.server.handshake_ms = Some(5000);
                 s.tasks = vec![echo_task(6000, 1000)];
                 s.horizon_ms = 60_000;
-                out.push(Case { scn: s, menu: vec![], k: 0, extra: vec![Action::BlackholeFrom(0), Action::BlackholeFrom(1), Action::BlackholeFrom(2)], expect: Expect::Report, injects: vec![], differential: false, first_index: 0, adv: None });
+                out.push(Case { scn: s, menu: vec![], k: 0, extra: vec![Action::BlackholeFrom(0), Action::BlackholeFrom(1), Action::BlackholeFrom(2)], expect: Expect::Report, injects: vec![], differential: false, first_index: 0, adv: None, last_index: u32::MAX });
+            }
+            // thorough: a blackhole window or a drop, followed by a further drop / delay, all within the
+            // handshake of the large-certificate scenarios (the server is blocked twice, the client's
+            // probe is lost, ...)
+            if !quick {
+                for (name, cert, last) in [("live/tls-amplification-cert-medium-pairs", Cert::Medium, 15u32), ("live/tls-amplification-cert-large-pairs", Cert::Large, 18)] {
+                    let mut s = Scenario::base(name);
+                    s.tls = Tls::S2n;
+                    s.cert = cert;
+                    s.expect_amp_block = true;
+                    s.tasks = vec![echo_task(3000, 0)];
+                    out.push(Case { scn: s, menu: vec![Action::Drop, Action::Delay(3)], k: 2, extra: bh(&[0, 1, 2]), expect: Expect::Complete, injects: vec![], differential: false, first_index: 0, adv: None, last_index: last });
+                }
             }
         }
         // ------------------------------------------------------------------ FLOW
@@ -304,7 +358,7 @@ pub fn family(name: &str, tier: Tier) -> Vec<Case> {
                     s.client.conn_window = Some(cw.max(64));
                     s.tasks = vec![echo_task(if sw.min(cw) < 10 { 40 } else { 3000 }, 0)];
                     s.horizon_ms = 120_000;
-                    out.push(Case { scn: s, menu: menu_null(), k: 1, extra: vec![], expect: Expect::Complete, injects: vec![], differential: false, first_index: 0, adv: None });
+                    out.push(Case { scn: s, menu: menu_null(), k: 1, extra: vec![], expect: Expect::Complete, injects: vec![], differential: false, first_index: 0, adv: None, last_index: u32::MAX });
                 }
             }
             // write > window then reset: the RESET_STREAM final size
@@ -317,7 +371,7 @@ pub fn family(name: &str, tier: Tier) -> Vec<Case> {
                     vec![Op::OpenBidi, Op::Write(100, 0), Op::Sleep(60), Op::Reset(5), Op::Sleep(200)],
                     vec![Op::OpenUni, Op::Write(100, 0), Op::Reset(5), Op::Sleep(200)],
                 ];
-                out.push(Case { scn: s, menu: menu_null(), k: 1, extra: vec![], expect: Expect::Nothing, injects: vec![], differential: false, first_index: 0, adv: None });
+                out.push(Case { scn: s, menu: menu_null(), k: 1, extra: vec![], expect: Expect::Nothing, injects: vec![], differential: false, first_index: 0, adv: None, last_index: u32::MAX });
             }
             // stream-count limits that differ per stream type (and per role): the opener must respect the
             // limit of the type it opens, not the other one
@@ -331,7 +385,7 @@ pub fn family(name: &str, tier: Tier) -> Vec<Case> {
                 s.server_mode.push_streams = 3;
                 s.server_mode.push_size = 200;
                 s.client_accepts_uni = true;
-                out.push(Case { scn: s, menu: menu_null(), k: 1, extra: vec![], expect: Expect::Complete, injects: vec![], differential: false, first_index: 0, adv: None });
+                out.push(Case { scn: s, menu: menu_null(), k: 1, extra: vec![], expect: Expect::Complete, injects: vec![], differential: false, first_index: 0, adv: None, last_index: u32::MAX });
             }
             // stream-count limits
             for lim in [1u64, 2] {
@@ -339,7 +393,7 @@ pub fn family(name: &str, tier: Tier) -> Vec<Case> {
                 s.server.max_bidi_remote = Some(lim);
                 s.server.max_uni_remote = Some(lim);
                 s.tasks = vec![[echo_task(300, 0), echo_task(300, 0), echo_task(300, 0)].concat(), [uni_task(300, 0), uni_task(300, 0), uni_task(300, 0)].concat()];
-                out.push(Case { scn: s, menu: menu_null(), k: if quick { 1 } else { 2 }, extra: vec![], expect: Expect::Complete, injects: vec![], differential: false, first_index: 0, adv: None });
+                out.push(Case { scn: s, menu: menu_null(), k: if quick { 1 } else { 2 }, extra: vec![], expect: Expect::Complete, injects: vec![], differential: false, first_index: 0, adv: None, last_index: u32::MAX });
             }
         }
         // ------------------------------------------------------------------ LIFECYCLE
@@ -371,7 +425,7 @@ pub fn family(name: &str, tier: Tier) -> Vec<Case> {
                     if quick && idx % 2 == 0 && act != "reset" {
                         continue;
                     }
-                    out.push(Case { scn: s, menu: menu_null(), k: 1, extra: vec![], expect: Expect::Nothing, injects: vec![], differential: false, first_index: 0, adv: None });
+                    out.push(Case { scn: s, menu: menu_null(), k: 1, extra: vec![], expect: Expect::Nothing, injects: vec![], differential: false, first_index: 0, adv: None, last_index: u32::MAX });
                 }
             }
             // peer-driven: server sends STOP_SENDING / resets its direction / closes
@@ -383,7 +437,7 @@ pub fn family(name: &str, tier: Tier) -> Vec<Case> {
                 let mut s = Scenario::base(name);
                 f(&mut s.server_mode);
                 s.tasks = base_tasks();
-                out.push(Case { scn: s, menu: menu_null(), k: 1, extra: vec![], expect: Expect::Nothing, injects: vec![], differential: false, first_index: 0, adv: None });
+                out.push(Case { scn: s, menu: menu_null(), k: 1, extra: vec![], expect: Expect::Nothing, injects: vec![], differential: false, first_index: 0, adv: None, last_index: u32::MAX });
             }
         }
         // ------------------------------------------------------------------ HS
@@ -394,14 +448,67 @@ pub fn family(name: &str, tier: Tier) -> Vec<Case> {
                 s.mtu = mtu;
                 s.tasks = vec![echo_task(2000, 0)];
                 let menu = if tls == Tls::Null { menu_null() } else { menu_tls() };
-                out.push(Case { scn: s, menu, k: if tls == Tls::Null { 2 } else if quick { 1 } else { 2 }, extra: vec![], expect: Expect::Complete, injects: vec![], differential: false, first_index: 0, adv: None });
+                out.push(Case { scn: s, menu, k: if tls == Tls::Null { 2 } else if quick { 1 } else { 2 }, extra: vec![], expect: Expect::Complete, injects: vec![], differential: false, first_index: 0, adv: None, last_index: u32::MAX });
+            }
+            // certificate chains above 3 x 1200 and 6 x 1200 bytes: the server runs into the
+            // anti-amplification limit in the middle of its first flight.  Thorough: every pair of
+            // drop / duplicate / delay, plus every single corruption / truncation
+            let damage = || vec![Action::Corrupt(0, 0x01), Action::Corrupt(1, 0x80), Action::Corrupt(2, 0xff), Action::Truncate];
+            for (name, cert, mtu) in [("hs/tls-cert-medium-1500", Cert::Medium, 1500u16), ("hs/tls-cert-large-1500", Cert::Large, 1500), ("hs/tls-cert-large-1228", Cert::Large, 1228)] {
+                if quick && mtu == 1228 {
+                    continue;
+                }
+                let mut s = Scenario::base(name);
+                s.tls = Tls::S2n;
+                s.cert = cert;
+                s.mtu = mtu;
+                s.expect_amp_block = true;
+                s.tasks = vec![echo_task(2000, 0)];
+                let (menu, k, extra) = if quick { (menu_null(), 1, vec![]) } else if mtu == 1228 { (menu_tls(), 1, vec![]) } else { (menu_null(), 2, damage()) };
+                // thorough pairs stay within the handshake (it ends around datagram 12 / 15 of the
+                // fault-free run; what follows is the same transfer and close as in hs/tls-1500)
+                let last_index = if quick || k == 1 { u32::MAX } else if cert == Cert::Medium { 15 } else { 18 };
+                out.push(Case { scn: s, menu, k, extra, expect: Expect::Complete, injects: vec![], differential: false, first_index: 0, adv: None, last_index });
+            }
+            // Retry: every fault at every index, the Retry datagram and the second Initial included
+            for (name, tls, cert, retry) in [
+                ("hs/null-retry", Tls::Null, Cert::Stock, Retry::Det),
+                ("hs/tls-retry", Tls::S2n, Cert::Stock, Retry::Det),
+                ("hs/tls-retry-stock-token", Tls::S2n, Cert::Stock, Retry::Stock),
+                ("hs/tls-retry-cert-medium", Tls::S2n, Cert::Medium, Retry::Det),
+            ] {
+                if quick && cert == Cert::Medium {
+                    continue;
+                }
+                let mut s = Scenario::base(name);
+                s.tls = tls;
+                s.cert = cert;
+                s.retry = retry;
+                s.expect_amp_block = cert != Cert::Stock;
+                s.tasks = vec![echo_task(2000, 0)];
+                let (menu, k, extra) = if tls == Tls::Null {
+                    (menu_null(), 2, vec![])
+                } else if retry == Retry::Stock {
+                    // no corruption: the stock token format burns a token on a corrupted copy of the
+                    // Initial that carries it (see notes/wL.md); its tokens also expire after 1-2 s
+                    (menu_null(), 1, vec![])
+                } else if quick {
+                    (menu_tls(), 1, vec![])
+                } else if cert == Cert::Medium {
+                    (menu_null(), 2, damage())
+                } else {
+                    // pairs include a Retry whose integrity tag is damaged
+                    (vec![Action::Drop, Action::Dup(1000), Action::Delay(3), Action::Corrupt(2, 0xff)], 2, vec![Action::Corrupt(0, 0x01), Action::Corrupt(1, 0x80), Action::Truncate])
+                };
+                let last_index = if quick || k == 1 || tls == Tls::Null { u32::MAX } else if cert == Cert::Medium { 17 } else { 12 };
+                out.push(Case { scn: s, menu, k, extra, expect: Expect::Complete, injects: vec![], differential: false, first_index: 0, adv: None, last_index });
             }
             // early close by the server application: CONNECTION_CLOSE packets count too
             let mut s = Scenario::base("hs/tls-server-early-close");
             s.tls = Tls::S2n;
             s.server_mode.close_after_ms = Some(0);
             s.tasks = vec![echo_task(2000, 0)];
-            out.push(Case { scn: s, menu: menu_tls(), k: 1, extra: vec![], expect: Expect::Nothing, injects: vec![], differential: false, first_index: 0, adv: None });
+            out.push(Case { scn: s, menu: menu_tls(), k: 1, extra: vec![], expect: Expect::Nothing, injects: vec![], differential: false, first_index: 0, adv: None, last_index: u32::MAX });
         }
         // ------------------------------------------------------------------ MIGRATE: rebinding, connection-id rotation
         "migrate" => {
@@ -417,7 +524,7 @@ pub fn family(name: &str, tier: Tier) -> Vec<Case> {
                 s.horizon_ms = 120_000;
                 // RFC 9000 9: no migration before the handshake is confirmed - a client whose address changes
                 // mid-handshake legitimately fails to connect, so deviations start after the handshake
-                out.push(Case { scn: s, menu: vec![Action::RebindClient, Action::Drop, Action::Delay(3)], k: if quick { 1 } else { 2 }, extra: vec![], expect: Expect::Complete, injects: vec![], differential: false, first_index: 10, adv: None });
+                out.push(Case { scn: s, menu: vec![Action::RebindClient, Action::Drop, Action::Delay(3)], k: if quick { 1 } else { 2 }, extra: vec![], expect: Expect::Complete, injects: vec![], differential: false, first_index: 10, adv: None, last_index: u32::MAX });
             }
             // the server has plenty to send when the client's address changes: the new path is
             // amplification-limited until it is validated
@@ -436,7 +543,7 @@ pub fn family(name: &str, tier: Tier) -> Vec<Case> {
             s.server_mode.push_size = 40_000;
             s.client_accepts_uni = true;
             s.horizon_ms = 120_000;
-            out.push(Case { scn: s, menu: vec![Action::RebindClient, Action::Drop], k: if quick { 1 } else { 2 }, extra: vec![], expect: Expect::Complete, injects: vec![], differential: false, first_index: 10, adv: None });
+            out.push(Case { scn: s, menu: vec![Action::RebindClient, Action::Drop], k: if quick { 1 } else { 2 }, extra: vec![], expect: Expect::Complete, injects: vec![], differential: false, first_index: 10, adv: None, last_index: u32::MAX });
             // connection-id expiry: the stock minimum lifetime (60 s) in a 150 s keep-alive scenario
             let mut s = Scenario::base("migrate/rotation-60s");
             s.tls = Tls::S2n;
@@ -452,7 +559,7 @@ pub fn family(name: &str, tier: Tier) -> Vec<Case> {
             ops.push(Op::AwaitReader);
             s.tasks = vec![ops];
             s.horizon_ms = 400_000;
-            out.push(Case { scn: s, menu: vec![Action::RebindClient, Action::Drop], k: 1, extra: vec![], expect: Expect::Complete, injects: vec![], differential: false, first_index: 10, adv: None });
+            out.push(Case { scn: s, menu: vec![Action::RebindClient, Action::Drop], k: 1, extra: vec![], expect: Expect::Complete, injects: vec![], differential: false, first_index: 10, adv: None, last_index: u32::MAX });
         }
         // ------------------------------------------------------------------ TPE2E: edited transport-parameter blocks
         "tpe2e" => {
@@ -463,11 +570,14 @@ pub fn family(name: &str, tier: Tier) -> Vec<Case> {
                     }
                     let mut s = Scenario::base(&format!("tpe2e/{}-{}", item.name, if who == 0 { "from-client" } else { "from-server" }));
                     s.tp_edit = Some((who, item.edit.clone()));
+                    if item.retry {
+                        s.retry = Retry::Det;
+                    }
                     s.tasks = vec![echo_task(3000, 0)];
                     s.horizon_ms = if item.accept { 30_000 } else { 12_000 };
                     s.linger_ms = 100;
                     let _ = i;
-                    out.push(Case { scn: s, menu: vec![], k: 0, extra: vec![], expect: if item.accept && !item.limits_only { Expect::Complete } else { Expect::Nothing }, injects: vec![], differential: false, first_index: 0, adv: None });
+                    out.push(Case { scn: s, menu: vec![], k: 0, extra: vec![], expect: if item.accept && !item.limits_only { Expect::Complete } else { Expect::Nothing }, injects: vec![], differential: false, first_index: 0, adv: None, last_index: u32::MAX });
                 }
             }
         }
@@ -487,7 +597,7 @@ pub fn family(name: &str, tier: Tier) -> Vec<Case> {
                             let mut s = Scenario::base(&format!("adv/{}-{}-sp{}-n{}", item.name, if attacker == 0 { "client-attacks" } else { "server-attacks" }, space, nth));
                             s.tasks = vec![echo_task(6000, 1000)];
                             s.horizon_ms = 30_000;
-                            out.push(Case { scn: s, menu: vec![], k: 0, extra: vec![], expect: Expect::Nothing, injects: vec![], differential: false, first_index: 0, adv: Some(Adv { attacker, space, nth, item: i }) });
+                            out.push(Case { scn: s, menu: vec![], k: 0, extra: vec![], expect: Expect::Nothing, injects: vec![], differential: false, first_index: 0, adv: Some(Adv { attacker, space, nth, item: i }), last_index: u32::MAX });
                         }
                     }
                 }
@@ -510,7 +620,7 @@ pub fn family(name: &str, tier: Tier) -> Vec<Case> {
                     }
                     size += runs * step;
                 }
-                out.push(Case { scn: s, menu: vec![], k: 0, extra: vec![], expect: Expect::Complete, injects, differential: false, first_index: 0, adv: None });
+                out.push(Case { scn: s, menu: vec![], k: 0, extra: vec![], expect: Expect::Complete, injects, differential: false, first_index: 0, adv: None, last_index: u32::MAX });
             }
         }
         // ------------------------------------------------------------------ FORGE: forged variants of genuine datagrams
@@ -522,12 +632,12 @@ pub fn family(name: &str, tier: Tier) -> Vec<Case> {
                 // with null TLS nothing is authenticated: only the handshake datagrams (Initial packets are
                 // protected by nothing there either) - so null is used for replays only
                 let menu = if tls == Tls::S2n { vec![Action::Forge(0), Action::Forge(1), Action::Forge(2), Action::Forge(3)] } else { vec![Action::Dup(60_000), Action::Dup(400_000)] };
-                out.push(Case { scn: s, menu, k: 1, extra: vec![], expect: Expect::Complete, injects: vec![], differential: tls == Tls::S2n, first_index: 0, adv: None });
+                out.push(Case { scn: s, menu, k: 1, extra: vec![], expect: Expect::Complete, injects: vec![], differential: tls == Tls::S2n, first_index: 0, adv: None, last_index: u32::MAX });
             }
             let mut s = Scenario::base("forge/tls-replays");
             s.tls = Tls::S2n;
             s.tasks = vec![echo_task(3000, 1000)];
-            out.push(Case { scn: s, menu: vec![Action::Dup(1000), Action::Dup(60_000), Action::Dup(400_000)], k: if quick { 1 } else { 2 }, extra: vec![], expect: Expect::Complete, injects: vec![], differential: false, first_index: 0, adv: None });
+            out.push(Case { scn: s, menu: vec![Action::Dup(1000), Action::Dup(60_000), Action::Dup(400_000)], k: if quick { 1 } else { 2 }, extra: vec![], expect: Expect::Complete, injects: vec![], differential: false, first_index: 0, adv: None, last_index: u32::MAX });
         }
         // ------------------------------------------------------------------ KEYUP (hook H5)
         "keyup" => {
@@ -548,7 +658,7 @@ pub fn family(name: &str, tier: Tier) -> Vec<Case> {
                 // deviations start after the handshake: a lost handshake flight inflates the RTT estimate to
                 // ~1 s and with it the PTO-long key retention window beyond the artificial update interval of
                 // hook H5 - a state real AEAD limits cannot produce
-                out.push(Case { scn: s, menu: vec![Action::Drop, Action::Delay(3), Action::Dup(1000)], k: 1, extra: vec![], expect: Expect::Complete, injects: vec![], differential: false, first_index: 12, adv: None });
+                out.push(Case { scn: s, menu: vec![Action::Drop, Action::Delay(3), Action::Dup(1000)], k: 1, extra: vec![], expect: Expect::Complete, injects: vec![], differential: false, first_index: 12, adv: None, last_index: u32::MAX });
             }
         }
         _ => panic!("unknown family {}", name),
@@ -565,6 +675,8 @@ pub struct TpItem {
     pub accept: bool,
     /// accepted, but the declared limits make the transfer stall (only the sender-side limit monitor is of interest)
     pub limits_only: bool,
+    /// the handshake is preceded by a real Retry (the verdict of connection-id parameters depends on it)
+    pub retry: bool,
 }
 
 fn vint(v: u64) -> Vec<u8> {
@@ -574,8 +686,14 @@ fn vint(v: u64) -> Vec<u8> {
 }
 
 pub fn tp_catalogue() -> Vec<TpItem> {
-    let rej = |name: &'static str, who: u8, edit: TpEdit| TpItem { name, who, edit, accept: false, limits_only: false };
-    let acc = |name: &'static str, who: u8, edit: TpEdit| TpItem { name, who, edit, accept: true, limits_only: false };
+    let rej = |name: &'static str, who: u8, edit: TpEdit| TpItem { name, who, edit, accept: false, limits_only: false, retry: false };
+    let acc = |name: &'static str, who: u8, edit: TpEdit| TpItem { name, who, edit, accept: true, limits_only: false, retry: false };
+    // RFC 9000 7.3: after a Retry the server MUST send original_destination_connection_id = the
+    // Destination Connection ID of the client's *first* Initial and retry_source_connection_id = the
+    // Source Connection ID of the Retry packet; the client MUST treat a missing or mismatching value
+    // as TRANSPORT_PARAMETER_ERROR
+    let rrej = |name: &'static str, edit: TpEdit| TpItem { name, who: 1, edit, accept: false, limits_only: false, retry: true };
+    let racc = |name: &'static str, edit: TpEdit| TpItem { name, who: 1, edit, accept: true, limits_only: false, retry: true };
     vec![
         rej("ack-delay-exponent-21", 2, TpEdit::Replace(0x0a, vec![21])),
         acc("ack-delay-exponent-20", 2, TpEdit::Replace(0x0a, vec![20])),
@@ -601,9 +719,18 @@ pub fn tp_catalogue() -> Vec<TpItem> {
         acc("unknown-grease-parameter-len0", 2, TpEdit::Append(vec![0x1b, 0x00])),
         acc("unknown-grease-parameter-len8", 2, TpEdit::Append(vec![0x40, 0x3a, 0x08, 1, 2, 3, 4, 5, 6, 7, 8])),
         acc("unknown-large-id", 2, TpEdit::Append(vec![0xc0, 0, 0, 0, 0xff, 0, 0, 0x1b, 0x01, 0x09])),
-        TpItem { name: "declares-stream-data-10", who: 2, edit: TpEdit::Replace(0x06, vec![10]), accept: true, limits_only: true },
-        TpItem { name: "declares-max-data-100", who: 2, edit: TpEdit::Replace(0x04, vint(100)), accept: true, limits_only: true },
-        TpItem { name: "declares-max-streams-bidi-0", who: 1, edit: TpEdit::Replace(0x08, vec![0]), accept: true, limits_only: true },
+        TpItem { name: "declares-stream-data-10", who: 2, edit: TpEdit::Replace(0x06, vec![10]), accept: true, limits_only: true, retry: false },
+        TpItem { name: "declares-max-data-100", who: 2, edit: TpEdit::Replace(0x04, vint(100)), accept: true, limits_only: true, retry: false },
+        TpItem { name: "declares-max-streams-bidi-0", who: 1, edit: TpEdit::Replace(0x08, vec![0]), accept: true, limits_only: true, retry: false },
+        racc("after-retry-genuine-values", TpEdit::Append(vec![])),
+        racc("after-retry-unknown-parameter", TpEdit::Append(vec![0x1b, 0x00])),
+        rrej("after-retry-retry-source-connection-id-mismatch", TpEdit::Replace(0x10, vec![0xab; 16])),
+        rrej("after-retry-retry-source-connection-id-missing", TpEdit::Remove(0x10)),
+        rrej("after-retry-retry-source-connection-id-is-original-dcid", TpEdit::Copy { from: 0x00, to: 0x10 }),
+        rrej("after-retry-original-destination-connection-id-is-retry-scid", TpEdit::Copy { from: 0x10, to: 0x00 }),
+        rrej("after-retry-original-destination-connection-id-mismatch", TpEdit::Replace(0x00, vec![0xab; 8])),
+        rrej("after-retry-original-destination-connection-id-missing", TpEdit::Remove(0x00)),
+        rrej("after-retry-initial-source-connection-id-mismatch", TpEdit::Replace(0x0f, vec![0xab; 16])),
     ]
 }
 
@@ -670,14 +797,24 @@ pub fn property(p: &str) -> Option<PropertySpec> {
         "C03" => spec(vec!["fc"]),
         "C04" => Some(PropertySpec { families: vec!["data", "live", "flow", "lifecycle", "hs", "adv"], monitors: vec!["credit", "adv"] }),
         "C08" => spec(vec!["ack"]),
-        "C09" => spec(vec!["loss"]),
+        "C09" => spec(vec!["loss", "retry"]),
         "C10" => spec(vec!["sendgate"]),
-        "C11" => Some(PropertySpec { families: vec!["data", "live", "flow", "lifecycle", "hs", "stray", "migrate"], monitors: vec!["amp", "stray"] }),
+        "C11" => Some(PropertySpec { families: vec!["data", "live", "flow", "lifecycle", "hs", "stray", "migrate"], monitors: vec!["amp", "stray", "retry"] }),
         "C13" => Some(PropertySpec { families: vec!["migrate"], monitors: vec!["cid", "data", "live"] }),
-        "C14" => Some(PropertySpec { families: vec!["tpe2e"], monitors: vec!["tpe2e", "fc", "data", "live"] }),
+        "C14" => Some(PropertySpec { families: vec!["tpe2e"], monitors: vec!["tpe2e", "fc", "data", "live", "retry"] }),
         "C06" => Some(PropertySpec { families: vec!["forge"], monitors: vec!["auth", "ack", "data", "live"] }),
         "C12" => spec(vec!["txcons"]),
         "C15" => Some(PropertySpec { families: vec!["keyup"], monitors: vec!["keyup", "data", "live"] }),
+        // development aids (not registered with the driver): one family under every handshake-relevant monitor
+        "Xhs" | "Xlive" | "Xdata" | "Xtpe2e" => {
+            let fam: &'static str = match p {
+                "Xhs" => "hs",
+                "Xlive" => "live",
+                "Xdata" => "data",
+                _ => "tpe2e",
+            };
+            Some(PropertySpec { families: vec![fam], monitors: vec!["data", "live", "fc", "ack", "amp", "txcons", "loss", "sendgate", "retry", "tpe2e"] })
+        }
         _ => None,
     }
 }
@@ -721,6 +858,7 @@ pub fn run_monitors(names: &[String], case: &Case, r: &Record, only_finite_fault
                 }
             }
             "auth" => monitors::mon_auth(&case.scn, r, &mut out),
+            "retry" => monitors::mon_retry(&case.scn, r, &mut out),
             other => panic!("unknown monitor {}", other),
         }
     }
